@@ -11,7 +11,9 @@ reported).  The worker returns
       messages with their `Fields` in order — type objects mapped back to datatype ids by identity — defaults, message ids,
       directions, `__all__`);
   (c) for value sets chosen by the parent: the bytes `to_bytes()` produced from messages built through the generated classes
-      (unset fields, enum members as values) and what decoding those bytes gave.
+      (unset fields — every message once with ALL defaulted fields unset, records with unset fields —, enum members as values)
+      and what decoding those bytes gave.  Enum generators include character enums whose member NAMES overlap their VALUES
+      (`gen_overlap_members`, `gen_enum_default_spec`; model side: Props/C15Enum.lean, Witness/C15Enum.lean).
 
  * correspondence (Model/GenSoupApp.lean through drv_C15): (a) = `gen`, (b) = `evalModule (gen spec)` including the phase and
    class of a failure — on well-formed specs, on the known-defect shapes and on a stream of malformed specs;
@@ -367,7 +369,11 @@ def gen_value(rng, rich, ty, depth=0):
         return v, v
     if k == 'record':
         plain, tr = {}, {}
+        p_unset = rng.choice([0.0, 0.4, 0.4, 1.0])
         for f in rich['records'][ty[1]]:
+            if f['default'] != 'none' and rng.random() < p_unset:
+                plain[f['name']] = dval_py(f['default'])    # left unset in the record object: must encode the declared default
+                continue
             plain[f['name']], tr[f['name']] = gen_value(rng, rich, f['ty'], depth)
         return plain, {'__rec__': ty[1], 'fields': tr}
     if k == 'array':
@@ -379,10 +385,10 @@ def gen_value(rng, rich, ty, depth=0):
     raise ValueError(k)
 
 
-def gen_message_values(rng, rich, msg):
+def gen_message_values(rng, rich, msg, p_unset=0.5):
     plain, tr = {}, {}
     for f in msg['fields']:
-        if f['default'] != 'none' and rng.random() < 0.5:
+        if f['default'] != 'none' and rng.random() < p_unset:
             continue                                        # left unset: must encode the declared default
         plain[f['name']], tr[f['name']] = gen_value(rng, rich, f['ty'])
     return plain, tr
@@ -481,7 +487,8 @@ def gen_field(rng, names, ctx_, allow_def=True, in_record=False, force=None):
         if kind == 'fixed':
             f['default'] = gen_const(rng, dom)[:int(f['length'])].strip(' ')
         elif kind == 'enum' and rng.random() < 0.8:
-            f['default'] = rng.choice(ctx_['enum_values'][f['type'][5:]])
+            # a member's value — or, where a member's NAME is itself a legal constant of the datatype, that name
+            f['default'] = rng.choice(ctx_.get('enum_consts', ctx_['enum_values'])[f['type'][5:]])
         else:
             f['default'] = gen_const(rng, dom)
     return f
@@ -503,27 +510,71 @@ class FieldNames:
                 return n
 
 
+OVERLAP_SHAPES = ['swap', 'perm', 'identity', 'chain', 'single', 'mixed', 'mixed']
+
+
+def gen_overlap_members(rng, tid, mn, shape=None):
+    """members of a CHARACTER enum whose names are drawn from the same small alphabet as their values (a letter is both an
+    identifier and a legal character constant): `swap` N->Y, Y->N; `perm` names are a permutation of the values (fixed points
+    = a member named like its own value); `identity` every member named like its value; `chain` A->B, B->C (the last value is
+    nobody's name, the first name nobody's value); `single` one member whose name is a constant but not its value; `mixed`
+    single-letter and long names over values from the letters and other characters, repeats (aliases) allowed"""
+    shape = shape or rng.choice(OVERLAP_SHAPES)
+    letters = rng.sample(string.ascii_letters, rng.randint(2, 5))
+    mn.local.update(letters)
+    if shape == 'swap':
+        names, values = letters[:2], [letters[1], letters[0]]
+    elif shape == 'perm':
+        names, values = letters, rng.sample(letters, len(letters))
+    elif shape == 'identity':
+        names, values = letters, list(letters)
+    elif shape == 'chain':
+        names, values = letters[:-1], letters[1:]
+    elif shape == 'single':
+        names, values = letters[:1], letters[1:2]
+    else:
+        names = list(letters)
+        for _ in range(rng.randint(1, 2)):
+            names.insert(rng.randrange(len(names) + 1), mn.fresh_field())
+        pool = letters + [gen_const(rng, tid) for _ in range(2)]
+        values = [rng.choice(pool) for _ in names]
+    return [{'name': n, 'value': v} for n, v in zip(names, values)], shape
+
+
+def enum_consts(vals, tid):
+    """the default texts worth declaring on a field of this enum: every member's value and, for character enums, every
+    member name that is a legal constant of the datatype (one character)"""
+    out = [v['value'] for v in vals]
+    if DOC_TYPES[tid][0] == 'char':
+        out += [v['name'] for v in vals if len(v['name']) == 1]
+    return out
+
+
 def gen_wf_spec(rng, tier):
     """a specification inside the property's quantifier"""
     impl = rng.choice(IMPLS)
     names = Names(rng, RESERVED_CLASS)
     spec = {'enums': [], 'fielddefs': [], 'records': [], 'messages': []}
-    enum_types, enum_values = {}, {}
+    enum_types, enum_values, consts = {}, {}, {}
     for _ in range(rng.choice([0, 1, 1, 2, 3])):
         tid = rng.choice(INT_IDS + CHAR_IDS * 4)
         en = names.fresh(rng.choice(['E', 'Side', 'e']))
         mn = FieldNames(rng)
-        vals, seen = [], set()
-        for _ in range(rng.randint(1, 5)):
-            v = gen_const(rng, tid)
-            if v in seen and rng.random() < 0.8:
-                continue
-            seen.add(v)
-            vals.append({'name': mn.fresh_field(), 'value': v})
+        if tid in CHAR_IDS and rng.random() < 0.35:
+            vals, _shape = gen_overlap_members(rng, tid, mn)
+        else:
+            vals, seen = [], set()
+            for _ in range(rng.randint(1, 5)):
+                v = gen_const(rng, tid)
+                if v in seen and rng.random() < 0.8:
+                    continue
+                seen.add(v)
+                vals.append({'name': mn.fresh_field(), 'value': v})
         spec['enums'].append({'name': en, 'type': tid, 'values': vals})
         enum_types[en] = tid
         enum_values[en] = [v['value'] for v in vals]
-    ctx_ = {'enums': enum_types, 'enum_values': enum_values, 'records': [], 'defs': []}
+        consts[en] = enum_consts(vals, tid)
+    ctx_ = {'enums': enum_types, 'enum_values': enum_values, 'enum_consts': consts, 'records': [], 'defs': []}
     dn = FieldNames(rng)
     for _ in range(rng.choice([0, 0, 1, 2, 4])):
         f = gen_field(rng, dn, ctx_, allow_def=False, force=rng.choice(['prim', 'prim', 'fixed'] + (['enum'] if enum_types else [])))
@@ -562,6 +613,127 @@ def gen_wf_spec(rng, tier):
         spec['messages'].append({'name': mname, 'msgid': as_char if as_char is not None else str(ind),
                                  'group': group, 'direction': direction, 'fields': fields})
     return impl, spec
+
+
+def gen_enum_default_spec(rng, tier):
+    """inside the quantifier, aimed at 'unset fields encode their declared default' on ENUM-typed fields: character enums of
+    both character datatypes whose member names overlap their values (every shape of `gen_overlap_members`), an integer enum
+    and a plain character enum next to them; defaults declared inline, in a reusable field definition used as it is and
+    renamed, in records (used as a field and as array elements) and in messages"""
+    impl = rng.choice(IMPLS)
+    names = Names(rng, RESERVED_CLASS)
+    spec = {'enums': [], 'fielddefs': [], 'records': [], 'messages': []}
+    enum_types, enum_values, consts = {}, {}, {}
+
+    def add_enum(tid, vals):
+        en = names.fresh(rng.choice(['E', 'Flag', 'e']))
+        spec['enums'].append({'name': en, 'type': tid, 'values': vals})
+        enum_types[en], enum_values[en], consts[en] = tid, [v['value'] for v in vals], enum_consts(vals, tid)
+        return en
+    first = rng.choice(CHAR_IDS)
+    over = [add_enum(first, gen_overlap_members(rng, first, FieldNames(rng))[0])]
+    if rng.random() < 0.5:
+        other = [c for c in CHAR_IDS if c != first][0]
+        over.append(add_enum(other, gen_overlap_members(rng, other, FieldNames(rng))[0]))
+    plain = []
+    if rng.random() < 0.6:
+        tid = rng.choice(INT_IDS)
+        mn = FieldNames(rng)
+        plain.append(add_enum(tid, [{'name': mn.fresh_field(), 'value': v}
+                                    for v in sorted({gen_const(rng, tid) for _ in range(rng.randint(1, 4))})]))
+    if rng.random() < 0.4:
+        tid = rng.choice(CHAR_IDS)
+        mn = FieldNames(rng)
+        plain.append(add_enum(tid, [{'name': mn.fresh_field() + 'x', 'value': gen_const(rng, tid)} for _ in range(rng.randint(1, 3))]))
+    ctx_ = {'enums': enum_types, 'enum_values': enum_values, 'enum_consts': consts, 'records': [], 'defs': []}
+
+    def enum_field(fn, name=None):
+        en = rng.choice(over * 3 + plain)
+        f = blank_field(name or fn.fresh_field(), type='enum:' + en)
+        c = rng.random()
+        if c < 0.8:
+            f['default'] = rng.choice(consts[en])
+        elif c < 0.9:
+            f['default'] = gen_const(rng, enum_types[en])       # a constant of the datatype that is no member's value
+        elif c < 0.95:
+            f['array'], f['endian'] = 'true', rng.choice([None, 'big', 'little'])
+        return f
+    dn = FieldNames(rng)
+    for _ in range(rng.randint(1, 3)):
+        spec['fielddefs'].append(enum_field(dn))
+    if rng.random() < 0.4:
+        spec['fielddefs'].append(gen_field(rng, dn, ctx_, allow_def=False, force=rng.choice(['prim', 'fixed'])))
+    ctx_['defs'] = spec['fielddefs']
+
+    def some_fields(fn, n):
+        out = []
+        for _ in range(n):
+            c = rng.random()
+            if c < 0.4:
+                out.append(enum_field(fn))
+            elif c < 0.75:
+                d = rng.choice(spec['fielddefs'])
+                if d['name'] in fn.local or rng.random() < 0.5:
+                    out.append(blank_field(fn.fresh_field(), **{'def': d['name']}))
+                else:
+                    fn.local.add(d['name'])
+                    out.append(blank_field(None, **{'def': d['name']}))
+            else:
+                out.append(gen_field(rng, fn, ctx_, allow_def=False))
+        return out
+    for _ in range(rng.choice([0, 1, 1, 2])):
+        rn = names.fresh(rng.choice(['R', 'Leg']))
+        spec['records'].append({'name': rn, 'fields': some_fields(FieldNames(rng), rng.randint(1, 4))})
+        ctx_['records'] = ctx_['records'] + [rn]
+    used = set()
+    for _ in range(rng.choice([1, 1, 2, 3])):
+        direction = rng.choice(['incoming', 'outgoing'])
+        while True:
+            ind = rng.randrange(256)
+            if ind not in used:
+                used.add(ind)
+                break
+        fn = FieldNames(rng)
+        fields = some_fields(fn, rng.randint(1, 5))
+        for rn in ctx_['records']:
+            if rng.random() < 0.7:
+                arr = rng.random() < 0.6
+                fields.insert(rng.randrange(len(fields) + 1),
+                              blank_field(fn.fresh_field(), type='record:' + rn, array='true' if arr else None,
+                                          endian=rng.choice([None, 'big', 'little']) if arr else None))
+        spec['messages'].append({'name': names.fresh(rng.choice(['M', 'Order'])), 'msgid': str(ind), 'group': None,
+                                 'direction': direction, 'fields': fields})
+    return impl, spec
+
+
+def enum_default_stats(spec):
+    """input distribution: how enum members' names relate to their values, and what the declared default of every enum-typed
+    field is with respect to them (where it is declared: inline / def / renamed def; in a record / a message)"""
+    enums = {e['name']: e for e in spec['enums']}
+    defs = {d['name']: d for d in spec['fielddefs']}
+    for e in spec['enums']:
+        names, values = {v['name'] for v in e['values']}, {v['value'] for v in e['values']}
+        kind = 'char' if e['type'] in CHAR_IDS else 'int'
+        if names & values:
+            yield f'enum:{kind}:names-overlap-values' + (':own-value' if any(v['name'] == v['value'] for v in e['values']) else '')
+        else:
+            yield f'enum:{kind}:names-disjoint-from-values'
+    for sec in ('records', 'messages'):
+        for cont in spec[sec]:
+            for f in cont['fields']:
+                how = 'inline'
+                if f.get('def'):
+                    how, f = ('def-renamed' if f.get('name') else 'def'), defs.get(f['def'], {})
+                ty = f.get('type') or ''
+                if not ty.startswith('enum:') or f.get('default') is None or ty[5:] not in enums:
+                    continue
+                e = enums[ty[5:]]
+                by_name = {v['name']: v['value'] for v in e['values']}
+                d = f['default']
+                rel = ('name-of-another-value' if d in by_name and by_name[d] != d else
+                       'name-of-its-own-value' if d in by_name else
+                       'a-value' if d in by_name.values() else 'no-member')
+                yield f'enum-default:{e["type"]}:{how}:{sec[:-1]}:{rel}'
 
 
 def blank_field(name, **kw):
@@ -1079,8 +1251,9 @@ def prepare(case, rng, n_values):
     if case.cls == 'malformed':
         return
     for m in rich['messages']:
-        for _ in range(n_values):
-            plain, tr = gen_message_values(rng, rich, m)
+        for i in range(n_values):
+            # the first value set leaves EVERY field that declares a default unset
+            plain, tr = gen_message_values(rng, rich, m, 1.0 if i == 0 else 0.5)
             app_decode = not (case.impl == 'ouch' and m['direction'] != 'outgoing')
             tail = rng.randbytes(rng.choice([0, 0, 1, 5])).hex()
             case.values.append((m, plain, tr, app_decode, tail))
@@ -1149,8 +1322,18 @@ def judge(ctx, case, res, model):
         report(ctx, f'the generated module does not import: {res.get("imp_detail")}', case.replay_dict(kind=diagnose(case, res)))
         return False
     if res['schema']['schema'] != ref_sx:
-        report(ctx, 'generated classes differ from the specification: ' + first_diff(res['schema']['schema'], ref_sx),
-               case.replay_dict(kind=diagnose(case, res)))
+        # the classes differ; when one of the value sets already shows it on the wire, the replay carries that message as well
+        extra, more = {}, ''
+        for (msg, plain, tr, _ad, _tail), got in zip(case.values, res['values']):
+            expected = ref_encode_message(rich, msg, plain)
+            if got['enc'][0] == 'ok' and bytes.fromhex(got['enc'][2]) != expected:
+                unset = [f['name'] for f in msg['fields'] if f['name'] not in tr]
+                extra = {'message': msg['name'], 'values': tr}
+                more = (f'; e.g. {msg["name"]} built with {json.dumps(tr)[:200]} (unset: {unset}) encodes as {got["enc"][2]}, '
+                        f'the reference codec of the XML gives {expected.hex()}')
+                break
+        report(ctx, 'generated classes differ from the specification: ' + first_diff(res['schema']['schema'], ref_sx) + more,
+               case.replay_dict(kind=diagnose(case, res), **extra))
         return False
     if sorted(res['schema']['registered']) != sorted(m['name'] for m in rich['messages']):
         report(ctx, f'registered message classes {res["schema"]["registered"]} differ from the specification', case.replay_dict())
@@ -1295,6 +1478,12 @@ def shrink(ctx, case, stage, budget=45):
                             s2 = copy.deepcopy(spec)
                             s2[sec][i]['fields'][j][attr] = None
                             cands.append(s2)
+                    if cont['fields'][j].get('def'):           # write the referenced definition out in place
+                        base = [d for d in spec['fielddefs'] if d['name'] == cont['fields'][j]['def']]
+                        if base:
+                            s2 = copy.deepcopy(spec)
+                            s2[sec][i]['fields'][j] = dict(copy.deepcopy(base[0]), name=cont['fields'][j]['name'] or base[0]['name'])
+                            cands.append(s2)
         for s2 in cands:
             c = fails(s2)
             if c is not None:
@@ -1415,11 +1604,16 @@ def run(ctx):
     n_wf = 260 if quick else 12000
     n_mal = 3 if quick else 30                 # per malformed kind
     n_known = 4 if quick else 40               # per known-defect shape
+    n_enum = 60 if quick else 2500             # enum-typed fields with declared defaults over overlapping member names / values
     n_values = 3 if quick else 6
     ctx.cov['rule'] = ('grammar-based XML specifications (itch/ouch/sqf; enums of every integer/char datatype; reusable field '
                        'definitions referenced with and without rename; records in records, messages and arrays; every documented '
                        'datatype id; fixed-length strings; arrays with big/little/absent endian; defaults; numeric and character '
-                       'message ids) -> real generate entry point -> ast of the generated file + import + introspection, compared '
+                       'message ids; character enums whose member names overlap their values — swap, permutation, a member named '
+                       'like its own / another member\'s value — with defaults on enum-typed fields declared inline, through a '
+                       'field definition, renamed, in records and messages, the default text drawn from the values AND the '
+                       'one-character names; every message encoded once with all defaulted fields unset, records with unset '
+                       'fields) -> real generate entry point -> ast of the generated file + import + introspection, compared '
                        'with gen / evalModule of the Lean model and with a reference schema and codec written from the XML '
                        'documentation; distinct = distinct (impl, spec); malformed and known-defect shapes are compared with the '
                        'model only / reported as known findings')
@@ -1443,6 +1637,10 @@ def run(ctx):
         c.prefix, c.init_file = rng.choice(['', '', 'pfx']), rng.random() < 0.3
         cases.append(c)
         k += 1
+    for _ in range(n_enum):
+        impl, spec = gen_enum_default_spec(rng, ctx.tier)
+        cases.append(Case(f'e{k}', 'wf', impl, spec, kind='enum-defaults'))
+        k += 1
     for kind in FORMER_DEFECTS:                 # the shapes of the repaired defects, as ordinary well-formed input
         for _ in range(n_known):
             impl, spec = gen_known_spec(rng, ctx.tier, kind)
@@ -1460,6 +1658,9 @@ def run(ctx):
             for f in m['fields']:
                 ctx.count('field:' + ('def' if f['def'] else (f['type'] or 'none').split(':')[0])
                           + (':array' if f['array'] else '') + (':default' if f['default'] is not None else ''))
+        if c.cls == 'wf':
+            for key in enum_default_stats(c.spec):
+                ctx.count(key)
     ctx.cov['samples'] = [c.xml[:1500] for c in cases[:3]]
     run_cases(ctx, cases, workers=min(8, os.cpu_count() or 2))
     ctx.notes.append('XML parsing (ElementTree) and text rendering (chevron) are exercised on the implementation side only; the model '
@@ -1495,7 +1696,8 @@ def replay(ctx, path):
 
 def _plain_of(t, rich):
     if isinstance(t, dict) and '__rec__' in t:
-        return {k: _plain_of(v, rich) for k, v in t['fields'].items()}
+        return {f['name']: (_plain_of(t['fields'][f['name']], rich) if f['name'] in t['fields'] else dval_py(f['default']))
+                for f in rich['records'][t['__rec__']]}
     if isinstance(t, dict) and '__enum__' in t:
         return dval_py(dict(rich['enums'][t['__enum__']]['members'])[t['member']])
     if isinstance(t, list):
